@@ -86,6 +86,9 @@ class Matcher:
         return -1
 
 
+INFO_POSITIONS = list(range(0, 98)) + list(range(166, 264))      # information field of a 264-bit burst
+
+
 def run_cfg(args):
     """worker: one configuration through generator -> bytes -> parser -> terminal"""
     seed, cfg = args
@@ -112,6 +115,19 @@ def run_cfg(args):
             bursts = TransmissionGenerator.generate_full_data_transmission(
                 packet_type=pdu_class(rate), userdata=payload, data_header=hdr, csbk_count=p, colour_code=cc)
             raws = [b.as_bytes() for b in bursts]
+            if cfg.get("noise"):
+                # AirLink (growth): the channel inverts up to `noise` bits of the 196 information bits of every burst whose
+                # payload is BPTC(196,96) protected (preambles, header, rate 1/2 blocks); spec/AirLink.tla says the receiver
+                # cannot tell the difference
+                noisy = []
+                for b, r in zip(bursts, raws):
+                    if type(b.data).__name__ in ("CSBK", "DataHeader", "Rate12Data"):
+                        r = bytearray(r)
+                        for pos_ in rng.sample(INFO_POSITIONS, rng.randrange(1, cfg["noise"] + 1)):
+                            r[pos_ // 8] ^= 0x80 >> (pos_ % 8)
+                        r = bytes(r)
+                    noisy.append(r)
+                raws = noisy
             parsed = [Burst.from_bytes(r) for r in raws]
     except Exception as ex:  # noqa
         trace["gen_error"] = type(ex).__name__ + ": " + str(ex)[:200]
@@ -280,6 +296,36 @@ def run(ctx):
     for part in core.chunks(ok_traces, 250):
         rej = ctx.validate_traces("Trace_Fragmentation", "Trace_Fragmentation.cfg", part)
         judge(ctx, part, rej)
+    airlink_phase(ctx, cfgs)
+
+
+def airlink_phase(ctx, cfgs):
+    """growth beyond the statement (spec/AirLink.tla): the same transmissions over a channel that inverts up to two bits of
+    every BPTC-protected information field; the receiver must deliver exactly what it delivers over a clean channel.
+    Composes C07 (generator / tracker), C01 (burst parsing) and C02 (BPTC correction); informational."""
+    res = core.run_tlc(ctx, "MC_AirLink", "MC_AirLink.cfg", timeout=900)
+    if res.violated:
+        ctx.note("airlink_design_counterexample", res.violated)
+    pick = [c for c in cfgs if c["L"] <= 60 or c["N"] >= 126]
+    ctx.rng.shuffle(pick)
+    pick = pick[:150 if ctx.quick else 1500]
+    jobs = [(ctx.seed * 77 + n, dict(c, noise=2)) for n, c in enumerate(pick)]
+    with Pool(core.NCPU) as pool:
+        traces = pool.map(run_cfg, jobs, chunksize=8)
+    ok = []
+    for t, (_, c) in zip(traces, jobs):
+        t["N"], t["pad"] = c["N"], c["pad"]
+        if t["gen_error"]:
+            ctx.outside(f"AirLink: receiving a transmission with <= 2 inverted information bits per burst raised {t['gen_error'][:80]}")
+        else:
+            t.pop("gen_error")
+            ok.append(t)
+    ctx.note("airlink_transmissions", len(ok))
+    for part in core.chunks(ok, 250):
+        for tid, l, why in ctx.validate_traces("Trace_Fragmentation", "Trace_Fragmentation.cfg", part):
+            c = part[tid]["cfg"]
+            ctx.outside(f"AirLink: with <= 2 inverted information bits per BPTC-protected burst the receiver breaks {why} "
+                        f"({c['rate']}, {'confirmed' if c['conf'] else 'unconfirmed'})")
 
 
 def replay(ctx, rec):
